@@ -296,6 +296,17 @@ func runC09(e *Env) {
 		add("short-text", "any", t, "text", "conv", "degree")
 		add("short-text", "any", t, "text", "conv", "syllable")
 	}
+	var targets []string
+	gen("", 2, c04Alphabet, &targets)
+	targets = append(targets, "R[1]", "C[1]", "Cm R", "R R", "C D", "Cm/", "C_", "R/C", "Rm", "C/R", "C{a=b}", "Cm7b5/E", "♯", "C♯m")
+	for _, t := range targets {
+		add("describe-target", "any", "", "info", "chord", "describe", "-t", t)
+	}
+	for _, t := range []string{"R", "C", "", "Major3", "Perfect1", "major3", "Major3 ", "Major", "3"} {
+		for _, r := range []string{"C", "R", "", "H", "C#b", "Cbb", "c", "♯"} {
+			add("describe-target", "any", "", "info", "attr", "describe", "-t", t, "-r", r)
+		}
+	}
 	yamlAlpha := []string{"-", ":", " ", "\n", "a", "1", "[", "]", "{", "}", "\"", "&", "*", "!", "|"}
 	var shortYAML []string
 	gen("", 2, yamlAlpha, &shortYAML)
@@ -515,7 +526,7 @@ func runC09(e *Env) {
 		e.R.NonTrivial(fmt.Sprint(i))
 		e.R.State("cmd:" + cmdKey(c.Args))
 	})
-	e.R.AddPart(ev.Part{Name: "short-inputs-cli", Enumerated: fmt.Sprintf("real binary: every chord text of length <= %d over 22 symbols (C04's alphabet + NUL, 0xFF, 0xC3, ♯, CR) on text parse / conv degree / conv syllable; every YAML string of length <= 2 over 15 symbols on write / write event / write parse / write conv", tl), Executions: int64(nShort), Exhaustive: true})
+	e.R.AddPart(ev.Part{Name: "short-inputs-cli", Enumerated: fmt.Sprintf("real binary: every chord text of length <= %d over 22 symbols (C04's alphabet + NUL, 0xFF, 0xC3, ♯, CR) on text parse / conv degree / conv syllable; every YAML string of length <= 2 over 15 symbols on write / write event / write parse / write conv; every string of length <= 2 over C04's alphabet (and 14 longer ones) as the -t target of info chord describe, 9 x 8 (target, root) pairs of info attr describe", tl), Executions: int64(nShort), Exhaustive: true})
 	e.R.AddPart(ev.Part{Name: "one-deviation-mutants-cli", Enumerated: fmt.Sprintf("real binary: every truncation, deletion, and replacement/insertion by each of 20 bytes at every position of %s", map[bool]string{true: "3 chord texts, 3 instance documents, a chord file and an attribute file", false: "1 chord text, 1 instance document and a chord file"}[e.Thorough]), Executions: int64(nMut), Exhaustive: true})
 	e.R.AddPart(ev.Part{Name: "nonsense-table-cli", Enumerated: "real binary: {zero / zero-denominator durations, no durations, bpm 0, unknown dynamic, bad meter, unknown symbol, unknown modifier / conversion / target, keys without scale (H, c, Cmaj, xxG#yy, Fb, E#m, Abm), mixed notation, empty piece, inconsistent dictionaries} x {text metadata, YAML field, flag} x every command that has to interpret it, each also with -o; nonsense that a stage may pass on is piped into `write`, which must refuse it", Executions: int64(nTable), Exhaustive: true})
 	e.R.AddPart(ev.Part{Name: "flag-values-cli", Enumerated: "real binary: every value flag of every command x {empty, 0, -1, abc, 1e3, 2^64-1, 2^64, 300 digits, invalid UTF-8, C, 1/2}; --track 2, 33, 70000; valid baselines", Executions: int64(nFlags), Exhaustive: true})
